@@ -10,10 +10,11 @@
    Full statement of the property's fourth clause that is NOT proved as one theorem over histories:
      forall histories, forall calls i < j, the objects reachable from result j are disjoint from those reachable
      from result i and from every caller object;
-   proved instead (see Proofs/HeapFresh.v when present): per call, the result reaches only objects allocated by
-   that call (result_fresh), and no later call changes any existing object (history_pure). *)
+   proved instead: per call, the result reaches -- to every depth -- only objects allocated by that call
+   (result_fresh: so none of the caller's objects and none of the results returned earlier), and no later call
+   changes any existing object, earlier results included (history_pure). *)
 From Coq Require Import List Arith Bool.
-From QV Require Import Model.Heap Proofs.HeapBase Proofs.HeapPure Proofs.HeapService Proofs.HeapInst Gen.Purity.
+From QV Require Import Model.Heap Proofs.HeapBase Proofs.HeapPure Proofs.HeapFresh Proofs.HeapService Proofs.HeapInst Gen.Purity.
 Import ListNotations.
 
 (* generated obligation: the current sources contain every defensive copy / reset the theorems below rest on *)
@@ -30,6 +31,16 @@ Theorem history_pure :
   forall l, l < length (hp w) -> nth_error (hp w') l = nth_error (hp w) l.
 Proof. exact history_pure_lemma. Qed.
 Print Assumptions history_pure.
+
+(* results do not alias the caller's data or earlier results: whatever a call returns reaches, to every depth f,
+   only locations that did not exist before the call (dfresh n f h v: v and everything within depth f of it is
+   at a location >= n).  Together with history_pure (later calls change nothing that exists) the results of
+   different calls / outcomes never share a mutable object with each other or with the caller's objects. *)
+Theorem result_fresh :
+  forall fl w c w' r, flags_fresh fl = true -> guard fl w c = true -> call_wf w c ->
+  exec fl w c = Some (w', r) -> forall f, dfresh (length (hp w)) f (hp w') r.
+Proof. exact result_fresh_lemma. Qed.
+Print Assumptions result_fresh.
 
 (* a used simulator behaves like a fresh one: nothing it holds from earlier runs influences the next run *)
 Theorem sim_used_equals_fresh :
@@ -166,6 +177,11 @@ Example history_example :
   hist_guard good_flags ex_world ex_history = true /\ hist_wf good_flags ex_world ex_history /\
   exists w' rs, run_hist good_flags ex_world ex_history = Some (w', rs) /\ length rs = 8 /\ length (hp ex_world) < length (hp w').
 Proof. exact history_example. Qed.
+
+Example result_fresh_example :
+  exists w' l, exec good_flags ex_world (CSimStats 0 (Ref 10) 2) = Some (w', Ref l) /\ length (hp ex_world) <= l /\
+               guard good_flags ex_world (CSimStats 0 (Ref 10) 2) = true /\ call_wf ex_world (CSimStats 0 (Ref 10) 2).
+Proof. exact result_fresh_example. Qed.
 
 (* the defensive copy inside Instruction is needed: without it the caller's gate is sorted in place *)
 Example instr_copy_needed :
